@@ -1,0 +1,36 @@
+//go:build verif
+
+// Contracts for the response framing of protocol.go (C07, C09), checked by /verif/cmd/nsqvc. Comment-only file.
+// The output of the writer is the ghost stream wOut[0..wN) of .trusted/codec.spec (concatenation of all Write calls).
+
+package protocol
+
+// [size][data]: a 4-byte big-endian length, then the data; returns len(data)+4, or 0 with the first error.
+//@ func SendResponse(w io.Writer, data []byte) (int, error)
+//@   props C07 C09
+//@   requires w != nil
+//@   ensures[count] result1 == nil ==> result0 == len(data) + 4 && wN == old(wN) + 4 + len(data)
+//@   ensures[zero-on-error] result1 != nil ==> result0 == 0
+//@   ensures[size] result1 == nil && len(data) <= 2147483647 ==> sbe32(wOut, old(wN)) == len(data)
+//@   ensures[data] result1 == nil ==> forall k int :: {data[k]} 0 <= k && k < len(data) ==> wOut[old(wN) + 4 + k] == data[k]
+//@   ensures[earlier-output-kept] forall k int :: {wOut[k]} 0 <= k && k < old(wN) ==> wOut[k] == old(wOut)[k]
+//@   ensures[first-error] (result1 != nil <==> wErrs == old(wErrs) + 1) && (result1 == nil <==> wErrs == old(wErrs))
+//@   ensures[error-returned] result1 != nil ==> result1 == wLastErr
+//@   ensures[only-to-w] wCur == w && !old(wForeign) ==> !wForeign
+//@   modifies wN, wOut, wCalls, wErrs, wLastErr, wForeign
+
+// [size][frame type][data]: size = len(data)+4 and the frame type as 4-byte big-endian numbers, then the data.
+// Returns the number of bytes written (also on error) and the first error.
+//@ func SendFramedResponse(w io.Writer, frameType int32, data []byte) (int, error)
+//@   props C07 C09
+//@   requires w != nil
+//@   ensures[count] result0 == wN - old(wN)
+//@   ensures[total] result1 == nil ==> result0 == len(data) + 8
+//@   ensures[size] result0 >= 4 && len(data) + 4 <= 4294967295 ==> sbe32(wOut, old(wN)) == len(data) + 4
+//@   ensures[frame-type] result0 >= 8 ==> sbe32(wOut, old(wN) + 4) == toU32(frameType)
+//@   ensures[data] forall k int :: {data[k]} 0 <= k && k < len(data) && 8 + k < result0 ==> wOut[old(wN) + 8 + k] == data[k]
+//@   ensures[earlier-output-kept] forall k int :: {wOut[k]} 0 <= k && k < old(wN) ==> wOut[k] == old(wOut)[k]
+//@   ensures[first-error] (result1 != nil <==> wErrs == old(wErrs) + 1) && (result1 == nil <==> wErrs == old(wErrs))
+//@   ensures[error-returned] result1 != nil ==> result1 == wLastErr
+//@   ensures[only-to-w] wCur == w && !old(wForeign) ==> !wForeign
+//@   modifies wN, wOut, wCalls, wErrs, wLastErr, wForeign
